@@ -855,6 +855,29 @@ func (f *frame) callFn(ins ssa.Instruction, fn *ssa.Function, b *binding, res ss
 
 // extCall: a function outside the module. Table entries first, conservative default otherwise.
 func (f *frame) extCall(ins ssa.Instruction, name string, c *ssa.CallCommon, args []rset, res ssa.Value, site root) {
+	// sync.Pool: a value obtained from Get is exclusively owned by the caller until it is Put back, and the
+	// pool's own state is synchronised by the standard library. Get = fresh memory (or whatever a New function
+	// of the module returns), Put = no effect on shared state; the pool variable itself is only read.
+	// Nothing else of package sync gets this treatment (a hand-rolled mutex-protected cache stays flagged).
+	if name == "(*sync.Pool).Get" || name == "(*sync.Pool).Put" {
+		f.s.extCalls[name+" [sync.Pool]"] = struct{}{}
+		if len(args) > 0 {
+			for r := range args[0] {
+				if r.k == kG {
+					f.s.readsG[r.s] = struct{}{}
+				}
+			}
+		}
+		if name == "(*sync.Pool).Get" && res != nil {
+			f.setVal(res, rset{site: {}})
+			for _, fn := range append(append([]*ssa.Function{}, f.a.addrTaken["func() interface{}"]...), f.a.addrTaken["func() any"]...) {
+				// a New function of the module: its result is what Get may hand out
+				b := &binding{fvs: rset{root{k: kU, s: "captured by a sync.Pool New function"}: {}}, site: site}
+				f.callFn(ins, fn, b, res)
+			}
+		}
+		return
+	}
 	writesArgs, callsFuncs, retAliases, known := extSummary(name)
 	tag := "default"
 	if known {
@@ -1283,6 +1306,54 @@ func main() {
 		InitStores    []string `json:"stores_in_package_init"`
 		RuntimeStores []string `json:"stores_outside_package_init"`
 	}
+	// Package initialisation happens before any goroutine of the user can call into the package: stores made by
+	// functions that can ONLY run during initialisation are not writes to shared state. A function is
+	// initialisation-only when it is a package initialiser (the synthetic pkg.init or a declared init()), or when
+	// it is not exported, has at least one caller in the module and all its callers (static, class-hierarchy and
+	// by-signature edges alike) are initialisation-only. Everything else - in particular every exported function
+	// and every function without a module caller (it may be called from outside) - counts as run time.
+	callers := map[*ssa.Function]map[*ssa.Function]bool{}
+	for _, fn := range a.fns {
+		for c := range a.sum[fn].callees {
+			if callers[c] == nil {
+				callers[c] = map[*ssa.Function]bool{}
+			}
+			callers[c][fn] = true
+		}
+	}
+	initOnly := map[*ssa.Function]bool{}
+	for _, fn := range a.fns {
+		if fn.Parent() == nil && (fn.Name() == "init" && fn.Synthetic != "" || strings.HasPrefix(fn.Name(), "init#")) {
+			initOnly[fn] = true
+		}
+	}
+	for changed := true; changed; {
+		changed = false
+		for _, fn := range a.fns {
+			if initOnly[fn] || len(callers[fn]) == 0 {
+				continue
+			}
+			if o := fn.Object(); o != nil && o.Exported() {
+				continue
+			}
+			all := true
+			for c := range callers[fn] {
+				if !initOnly[c] && c != fn {
+					all = false
+				}
+			}
+			if all {
+				initOnly[fn] = true
+				changed = true
+			}
+		}
+	}
+	initNames := sset{}
+	for fn := range initOnly {
+		initNames[a.fnName(fn)] = struct{}{}
+	}
+	facts["initialisation_only_functions"] = initNames.sorted()
+
 	gfacts := []gfact{}
 	for _, g := range globals {
 		gf := gfact{Name: g.name, Type: g.typ, Pos: g.pos, InitStores: []string{}, RuntimeStores: []string{}}
@@ -1292,7 +1363,7 @@ func main() {
 		})
 		for _, w := range sites {
 			fnName := strings.SplitN(w, " ", 2)[0]
-			if strings.HasSuffix(fnName, ".init") || strings.Contains(fnName, ".init#") {
+			if _, isInit := initNames[fnName]; isInit {
 				gf.InitStores = append(gf.InitStores, w)
 			} else {
 				gf.RuntimeStores = append(gf.RuntimeStores, w)
@@ -1305,15 +1376,46 @@ func main() {
 	// imports that would put memory out of reach of this analysis (unsafe, reflect, cgo) or that signal
 	// deliberate sharing (sync, sync/atomic): reported, and required to be absent by Props/C19Fp.lean
 	special := sset{}
+	poolUsers := sset{}
 	for _, p := range modPkgs {
 		for _, imp := range p.Pkg.Imports() {
 			switch imp.Path() {
-			case "unsafe", "reflect", "sync", "sync/atomic", "C", "runtime":
+			case "unsafe", "reflect", "sync/atomic", "C", "runtime":
 				special[a.short(p.Pkg.Path())+" imports "+imp.Path()] = struct{}{}
 			}
 		}
 	}
+	// package sync: sync.Pool (type, Get, Put, field New) is allowed, anything else is reported
+	for _, p := range pkgs {
+		if p.TypesInfo == nil || !a.isMod(p.PkgPath) {
+			continue
+		}
+		for _, obj := range p.TypesInfo.Uses {
+			if obj == nil || obj.Pkg() == nil || obj.Pkg().Path() != "sync" {
+				continue
+			}
+			owner := obj.Name()
+			switch o := obj.(type) {
+			case *types.Func:
+				if sig, ok := o.Type().(*types.Signature); ok && sig.Recv() != nil {
+					if n := namedOf(sig.Recv().Type()); n != nil {
+						owner = n.Obj().Name()
+					}
+				}
+			case *types.Var:
+				if o.IsField() && o.Name() == "New" {
+					owner = "Pool"
+				}
+			}
+			if owner == "Pool" {
+				poolUsers[a.short(p.PkgPath)] = struct{}{}
+			} else {
+				special[a.short(p.PkgPath)+" uses sync."+owner] = struct{}{}
+			}
+		}
+	}
 	facts["special_imports"] = special.sorted()
+	facts["sync_pool_users"] = poolUsers.sorted()
 
 	// (ii) API entries: every exported function and method of exported (or Graph-implementing) types, plus
 	// the unexported view types' observers.
@@ -1324,8 +1426,8 @@ func main() {
 			continue
 		}
 		name := a.fnName(fn)
-		if strings.HasSuffix(name, ".init") {
-			continue
+		if initOnly[fn] {
+			continue // cannot run after package initialisation: not part of the run-time footprint
 		}
 		obj := fn.Object()
 		if obj == nil {
@@ -1473,7 +1575,9 @@ func main() {
 		fmt.Fprintf(&b, "(%s, %d)", leanStr(g.Name), len(g.RuntimeStores))
 	}
 	b.WriteString("]\n\n")
-	b.WriteString("/-- imports of unsafe / reflect / sync / sync/atomic / runtime / cgo by the module's packages -/\ndef specialImports : List String := " + leanStrList(special.sorted()) + "\n\n")
+	b.WriteString("/-- functions that can only run during package initialisation (excluded from `all`) -/\ndef initialisationOnly : List String := " + leanStrList(initNames.sorted()) + "\n\n")
+	b.WriteString("/-- packages using sync.Pool (allowed: Get = memory owned by the caller until Put) -/\ndef syncPoolUsers : List String := " + leanStrList(poolUsers.sorted()) + "\n\n")
+	b.WriteString("/-- imports of unsafe / reflect / sync/atomic / runtime / cgo, and uses of anything of package sync other than sync.Pool -/\ndef specialImports : List String := " + leanStrList(special.sorted()) + "\n\n")
 	b.WriteString("/-- `go` statements in the module -/\ndef goStatements : List String := " + leanStrList(spawns.sorted()) + "\n\n")
 	b.WriteString("/-- channel operations in the module: \"op channel-owner @site\" -/\ndef channelOps : List String := " + leanStrList(chans.sorted()) + "\n\n")
 	foreign := []string{}
